@@ -69,9 +69,9 @@ type c17Gen struct {
 var c17Names = []string{"a", "b", "c"}
 
 func (c *c17Gen) name() string { return c17Names[c.g.N(3)] }
-func (c *c17Gen) ival() string  { return fmt.Sprint(c.g.Ints(0, 1, 2, 3, 5, -1, 7)) }
-func (c *c17Gen) idx() string   { return fmt.Sprint(c.g.Ints(0, 1, 2, -1, -2, 3, 5, -7)) }
-func (c *c17Gen) key() string   { return c.g.Str("'k'", "'m'", "'n'", "''", "'k2'") }
+func (c *c17Gen) ival() string { return fmt.Sprint(c.g.Ints(0, 1, 2, 3, 5, -1, 7)) }
+func (c *c17Gen) idx() string  { return fmt.Sprint(c.g.Ints(0, 1, 2, -1, -2, 3, 5, -7)) }
+func (c *c17Gen) key() string  { return c.g.Str("'k'", "'m'", "'n'", "''", "'k2'") }
 
 func (c *c17Gen) snap() string {
 	switch c.kind {
@@ -159,7 +159,7 @@ func (c *c17Gen) step() string {
 			return x + " = [" + c.ival() + ", " + c.ival() + ", " + c.ival() + "]\n"
 		default:
 			c.use("nested-own-operand")
-			return rec(x + ".extend(" + x + ")") + rec(x + ".append(len(" + x + "))")
+			return rec(x+".extend("+x+")") + rec(x+".append(len("+x+"))")
 		}
 	case "dict":
 		switch g.Weighted(4, 3, 2, 2, 2, 2, 2, 1, 1) {
